@@ -1166,6 +1166,9 @@ func (p *printer) printNode(node any) error {
 
 	// format node
 	switch n := node.(type) {
+	case *ast.ForPhraseStmt:
+		// (embeds *ast.ForPhrase and therefore also satisfies ast.Expr)
+		p.stmt(n, false)
 	case ast.Expr:
 		p.expr(n)
 	case ast.Stmt:
